@@ -135,7 +135,14 @@ FailSend == /\ Is("FailSend") /\ LET st == Quiet IN Step([st EXCEPT !.failing = 
 HealSend == /\ Is("HealSend") /\ LET st == Quiet IN Step([st EXCEPT !.failing = FALSE, !.healSince = Ev.ts])
 \* The property promises that work queued at Close is resumed after a restart; it does not promise reprovide
 \* deadlines across a restart, so the deadline clock of every key starts again at the restart.
-Restart == /\ Is("Restart") /\ LET st == Quiet IN Step([st EXCEPT !.onlineSince = IF st.online THEN Ev.ts ELSE @, !.once = {}, !.restartAt = Ev.ts, !.restarted = TRUE])
+\* The provide queue is persisted at Close and read back at start: a provide-once that was waiting is carried
+\* out after the restart.  The queue of regions whose reprovide failed is not persisted, and a reprovide takes
+\* the waiting keys of its region out of the provide queue: a kept key that was not yet advertised at Close is
+\* owed its regular slot after the restart, not more.
+Restart == /\ Is("Restart")
+           /\ LET st == Quiet IN
+              Step([st EXCEPT !.onlineSince = IF st.online THEN Ev.ts ELSE @, !.restartAt = Ev.ts, !.restarted = TRUE,
+                              !.weak = @ \cup {k \in st.kept : st.last[k] < st.since[k]}])
 
 \* Quiescent: what is due has been done.  The timing clauses are decided for steady runs only (the provider
 \* used directly, no outage and no restart so far): what exactly is owed after an outage, after a restart and
@@ -143,7 +150,7 @@ Restart == /\ Is("Restart") /\ LET st == Quiet IN Step([st EXCEPT !.onlineSince 
 Settle ==
   /\ Is("Settle")
   /\ LET st == Quiet
-         steady == ~st.c.buffered /\ ~st.restarted /\ st.online /\ ~st.failing
+         steady == ~st.c.buffered /\ st.online /\ ~st.failing
          \* (records that could not be delivered are sent again once delivery works; the node retries every 5 minutes;
          \* after an outage the node is given the same time from the moment connectivity returns)
          from(k) == Max(Max(st.since[k], st.healSince), st.onlineSince)
